@@ -1050,6 +1050,22 @@ TRANSLATOR_MODULES.append("rs2lean_genavl")
 GEN_SRC.update({n: gen_src(n) for n in ("SrcAvl",)})
 EXTRACTORS["C07"] = EXTRACTORS["C07"] + [GEN_SRC["SrcAvl"]]
 
+# genlong: the rest of the Myers matchers (C09/C10) — tools/rs2lean_genlong.py (on top of rs2lean_pm.py): `States::new`, `known_dist`,
+# the glue of long.rs, `Matches::new/next` + `distance` at the long.rs instance of `impl_myers!`; Thm/C09.lean restates the theorems
+TRANSLATOR_MODULES.append("rs2lean_genlong")
+GEN_SRC.update({n: gen_src(n) for n in ("SrcMyersHelpers", "SrcMyersLongNew", "SrcMyersLongMatches")})
+EXTRACTORS["C09"] = EXTRACTORS["C09"] + [GEN_SRC[n] for n in ("SrcMyersHelpers", "SrcMyersLongNew", "SrcMyersLongMatches")]
+GEN_SRC.update({n: gen_src(n) for n in ("SrcMyersSimpleBest",)})
+EXTRACTORS["C09"] = EXTRACTORS["C09"] + [GEN_SRC[n] for n in ("SrcMyersSimpleBest",)]
+# genlong: the constructors (`new` / `new_ambig` of simple.rs and long.rs, `MyersBuilder`)
+GEN_SRC.update({n: gen_src(n) for n in ("SrcMyersSimpleNew", "SrcMyersLongCtor", "SrcMyersBuilder")})
+SOFT_MYERS_NEW = soft_modules(["RbV.Thm.GenSrcMyersNewSoft"], "the constructor theorems (`myers_new_source_eq_model`, word-level "
+                              "masks of `new_ambig`) no longer follow the text (property-level tie: correspondence run)")
+EXTRACTORS["C09"] = EXTRACTORS["C09"] + [GEN_SRC[n] for n in ("SrcMyersSimpleNew", "SrcMyersLongCtor", "SrcMyersBuilder")] + [SOFT_MYERS_NEW]
+# genlong: C10 — the cursor moves of the single-word traceback handler; Thm/C10.lean imports RbV.Thm.GenSrcMyersTb and restates
+GEN_SRC.update({n: gen_src(n) for n in ("SrcMyersTbState", "SrcMyersTbShort")})
+EXTRACTORS["C10"] = EXTRACTORS["C10"] + [GEN_SRC[n] for n in ("SrcMyersTbState", "SrcMyersTbShort")]
+
 
 # genprob: log-space probability arithmetic (C15) — dialect "prob" of tools/rs2lean_genprob.py (`f64` abstract);
 # Thm/C15.lean imports RbV.Thm.GenSrcProbs / GenSrcFastExp and restates the theorems; the shape-dependent equalities with
